@@ -2033,6 +2033,27 @@ theorem average1D_spec (rows : List (List Rat)) (tol : Rat) (avg : List Rat) (h 
 
 example : average1D [[1, 2, 3], [1, 2, 3], [11/10, 2, 3]] (1/5) = some [31/30, 2, 3] := by decide +kernel
 
+/-- **the average mesh of `_computeAverageAxialMesh`** is the column mean of a non-empty sub-family of the
+assemblies' meshes, all of which have as many points as the reference assembly (so has the result) and lie
+within the tolerance of it; it is positive. -/
+theorem averageAxialMesh_spec (refN : Nat) (meshes : List (List Rat)) (avg : List Rat)
+    (h : averageAxialMesh refN meshes = some avg) :
+    ∃ kept, kept.Sublist meshes ∧ kept ≠ [] ∧ (∀ r ∈ kept, r.length = refN) ∧ avg = colMeans kept ∧
+      avg.length = refN ∧ (∀ r ∈ kept, rowOK (1 / 5) avg r = true) ∧ ∀ a ∈ avg, 0 < a := by
+  obtain ⟨kept, k1, k2, k3, k4, k5⟩ := average1D_spec _ _ avg h
+  have hlen : ∀ r ∈ kept, r.length = refN := by
+    intro r hr
+    have := (List.mem_filter.mp (k1.subset hr)).2
+    simpa using this
+  refine ⟨kept, k1.trans List.filter_sublist, k2, hlen, k3, ?_, k4, k5⟩
+  cases kept with
+  | nil => exact absurd rfl k2
+  | cons r rest =>
+    rw [k3]
+    simp [colMeans, hlen r List.mem_cons_self]
+
+example : averageAxialMesh 3 [[1, 2, 3], [1, 2], [1, 2, 3], [11/10, 2, 3]] = some [31/30, 2, 3] := by decide +kernel
+
 /-! ### the decusping pipeline -/
 
 /-- **whatever `_decuspAxialMesh` returns is strictly increasing and has no cell thinner than the minimum** (the last
@@ -2053,6 +2074,21 @@ theorem decusp_spec (m : Rat) (common fuelB fuelT ctrlB ctrlT out : List Rat)
     exact ⟨s1, by simpa using s4⟩
   | anchors => rw [hfm] at hfin; cases hfin
   | fuel => rw [hfm] at hfin; cases hfin
+
+/-- **`generateCommonMesh` with a minimum size**: whatever it returns is strictly increasing and has no cell
+thinner than the minimum; without one it is the average mesh of `averageAxialMesh_spec`. -/
+theorem generateCommonMesh_spec (m : Rat) (refN : Nat) (meshes : List (List Rat)) (fuelB fuelT ctrlB ctrlT out : List Rat)
+    (h : generateCommonMesh (some m) refN meshes fuelB fuelT ctrlB ctrlT = some out) :
+    out.Pairwise (· < ·) ∧ GapsOK m out.reverse := by
+  unfold generateCommonMesh at h
+  simp only [Option.bind_eq_bind, Option.bind_eq_some_iff] at h
+  obtain ⟨avg, _, hd⟩ := h
+  exact decusp_spec m avg fuelB fuelT ctrlB ctrlT out hd
+
+theorem generateCommonMesh_none (refN : Nat) (meshes : List (List Rat)) (fuelB fuelT ctrlB ctrlT : List Rat) :
+    generateCommonMesh none refN meshes fuelB fuelT ctrlB ctrlT = averageAxialMesh refN meshes := by
+  unfold generateCommonMesh
+  cases averageAxialMesh refN meshes <;> rfl
 
 /-- **the generated mesh need NOT reach the top of the core** (known finding): the top of the common mesh is not an
 anchor of the final filter, so with a control-rod top 3 cm below the core top and a 6 cm minimum the point 175 is
